@@ -73,6 +73,8 @@ def enc_g(spec, smart):
         line += " AX=" + ";".join(ax)
     if spec.get("kinds"):
         line += " K=" + ",".join("%s:%s" % kv for kv in sorted(spec["kinds"].items()))
+    if spec.get("span"):
+        line += " SP=" + ";".join("%s~%s" % (_chk(n), enc_str(rx)) for n, rx in spec["span"].items())
     return line
 
 
@@ -129,6 +131,11 @@ def dec_g(line):
                 spec["tdefs"][sym] = {"t": kind, "args": [None if x == "-" else x for x in args.split(",")]}
         elif extra.startswith("K="):
             spec["kinds"] = dict(kv.split(":") for kv in extra[2:].split(","))
+        elif extra.startswith("SP="):
+            spec["span"] = {}
+            for it in extra[3:].split(";"):
+                n, rx = it.split("~")
+                spec["span"][n] = dec_str(rx)
         elif extra.startswith("AX="):
             for it in extra[3:].split(";"):
                 head, cnt, excl = it.split(":")
@@ -192,19 +199,38 @@ def tokenizer_str(spec):
 
 def raw_lex(spec, text, as_lines=False):
     """the lexemes `re` finds (group name, value), before naming and skipping; None if the text does not lex.
-    A str is cut at '\n' only and every line is right-stripped; a list of lines is taken as it is."""
+    A str is cut at '\n' only and every line is right-stripped; a list of lines is taken as it is. A lexeme whose group
+    is a key of span_matchers opens a span token: it ends where the span's pattern matches, on this or a later line;
+    its value is the text between opener and closer (the pattern's group), the pieces of the lines joined by '\n'."""
     m = re.compile(tokenizer_str(spec), re.VERBOSE)
+    spans = {n: re.compile(rx, re.VERBOSE) for n, rx in (spec.get("span") or {}).items()}
     out = []
+    cur, pieces = None, None
     for line in text.split("\n"):
         if not as_lines:
             line = line.rstrip()
         col = 0
         while col < len(line):
+            if cur is not None:
+                mm = spans[cur].match(line, col)
+                if mm is None:
+                    pieces.append(line[col:])
+                    col = len(line)
+                else:
+                    pieces.append(mm.group(mm.lastgroup))
+                    out.append((cur, "\n".join(pieces)))
+                    cur, col = None, mm.end()
+                continue
             mm = m.match(line, col)
             if mm is None or mm.end() == col:
                 return None
-            out.append((mm.lastgroup, mm.group(mm.lastgroup)))
+            if mm.lastgroup in spans:
+                cur, pieces = mm.lastgroup, []
+            else:
+                out.append((mm.lastgroup, mm.group(mm.lastgroup)))
             col = mm.end()
+    if cur is not None:
+        return None
     return out
 
 
@@ -312,22 +338,30 @@ def as_kind(names, kind):
     raise ValueError(kind)
 
 
-def build(spec, smart, trace_budget=None):
-    """-> (parser | None, reply)"""
+def build(spec, smart, trace_budget=None, shared=None):
+    """-> (parser | None, reply); `shared`: the caller-owned AnyTokenExcept items of one process, one object per
+    exclusion list, used in the grammars of all the parsers of a case"""
     llp = _llp()
     prods = {}
     for sym, alts in source_prods(spec):
         if isinstance(alts, dict):
             prods[sym] = make_template(alts)
         else:
-            prods[sym] = [None if a is None else (llp.AnyTokenExcept(*a["ax"]) if isinstance(a, dict) else tuple(a))
-                          for a in alts]
+            def ax_item(excl):
+                if shared is None:
+                    return llp.AnyTokenExcept(*excl)
+                if tuple(excl) not in shared:
+                    shared[tuple(excl)] = llp.AnyTokenExcept(*excl)
+                return shared[tuple(excl)]
+            prods[sym] = [None if a is None else (ax_item(a["ax"]) if isinstance(a, dict) else tuple(a)) for a in alts]
     kw = {(t, v): t2 for t, v, t2 in spec["kw"]}
     args = dict(productions=prods, synonyms=dict(spec["syn"]) or None, keywords=kw or None,
                 skip_tokens=as_kind(spec["skip"], spec.get("kinds", {}).get("skip", "set")),
                 smart_factorization=smart)
     if spec["start"] is not None:
         args["start_symbol_name"] = spec["start"]
+    if spec.get("span"):
+        args["span_matchers"] = dict(spec["span"])
     old = signal.signal(signal.SIGALRM, _alarm)
     signal.setitimer(signal.ITIMER_REAL, 20.0)
     try:
@@ -448,11 +482,12 @@ def impl(case, trace_budget=None, parse_budget=None):
     """trace_budget: line-event budget of the constructor; parse_budget: of one parse (with the stack bound).
     Every `g` creates a further parser object of the same process; `use k` goes back to the k-th one."""
     out, slots, cur = [], [], None          # slots: [parser, overrun]
+    shared = {}
     for line in case["lines"]:
         op = line.split()[0]
         if op == "g":
             spec, smart = dec_g(line)
-            parser, rep = build(spec, smart, trace_budget)
+            parser, rep = build(spec, smart, trace_budget, shared)
             if parser is not None:
                 slots.append([parser, False])
                 cur = len(slots) - 1
@@ -693,8 +728,13 @@ def _short(x):
     return r if len(r) < 300 else r[:140] + " ... " + r[-140:]
 
 
-def expected_tokens(case, text):
-    """the non-skipped tokens of a generated text, from the generator's character table (not the tokenizer)"""
+def expected_tokens(case, text, as_lines=False):
+    """the non-skipped tokens of a generated text, from the generator's character table (not the tokenizer); the lines
+    cut out of a str are right-stripped, the lines of a caller's list are taken as they are"""
+    if not as_lines:
+        text_ = "\n".join(l.rstrip() for l in text.split("\n"))
+        if text_ != text and text not in case.get("expect", {}):
+            text = text_
     if text in case.get("expect", {}):
         return [tuple(x) for x in case["expect"][text]]
     lm = case["lexmap"]
@@ -792,6 +832,25 @@ VARIANTS = {
                  T=["a", "b", "w"], lex={"a": "a", "b": "b"}, sep=" ", noise="",
                  free=["x\x0cy", "q\u2028r", "m\x85n", "u\rv", "\x1dz", "k\x0bk", "\x1cj", "p\u2029e", "\x1em", "cd",
                        "c\x0c\x0cd", "\u2028g"]),
+    # a synonym whose target is its own source / is the source of another synonym (each lexeme is renamed once)
+    "synid": dict(tok=[["SPACE", r"\s+"], ["a", "a"], ["b", "b"], ["c", "c"]], syn={"SPACE": "SPACE", "b": "b"}, kw=[],
+                  skip=None, T=["a", "b", "c"], lex={"a": "a", "b": "b", "c": "c"}, sep=" ", noise=""),
+    "synchain": dict(tok=[["SPACE", r"\s+"], ["a0", "a"], ["a", "c"], ["b", "b"]], syn={"a0": "a", "a": "c"}, kw=[],
+                     skip=None, T=["a", "b", "c"], lex={"a": "a", "b": "b", "c": "c"}, sep=" ", noise=""),
+    "synchainkw": dict(tok=[["SPACE", r"\s+"], ["w0", "[a-d]"]], syn={"w0": "w"}, kw=[["w", "a", "w0"], ["w", "b", "b"]],
+                       skip=None, T=["w0", "b", "w"], lex={"a": "w0", "b": "b", "c": "w", "d": "w"}, sep=" ", noise=""),
+    # every blank is a token of its own and nothing is skipped: blanks at the end of a line are tokens too (of a line
+    # given by the caller; a str is right-stripped line by line)
+    "wsterm": dict(tok=[["SPACE", r"[\ \t]"], ["a", "a"], ["b", "b"]], syn={}, kw=[], skip=[],
+                   T=["a", "b", "SPACE"], lex={"a": "a", "b": "b", " ": "SPACE", "\t": "SPACE"}, sep="", noise=""),
+    # multi-line ('span') tokens: a text block that is a terminal of the grammar (reported under a synonym) and a
+    # comment that is skipped; a body piece is never empty and never ends in a blank
+    "span": dict(tok=[["SPACE", r"\s+"], ["a", "a"], ["b", "b"], ["Q0", "<"], ["COMMENT", r"\{"]], syn={"Q0": "Q"}, kw=[],
+                 skip=None, T=["a", "b", "Q"], lex={"a": "a", "b": "b"}, sep=" ", noise="",
+                 span={"Q0": r"(?P<QB>[^>]*)>", "COMMENT": r"(?P<CB>[^}]*)\}"},
+                 spanlex={"Q": [["<x>", "x"], ["<x y>", "x y"], ["<x\ny>", "x\ny"], ["<p\nq\nr>", "p\nq\nr"], ["<{z}>", "{z}"],
+                                ["<a b>", "a b"], ["<>", ""]]},
+                 spannoise=["{c}", "{c\nd}", "{<}", "{a b\n a}"]),
     "noskip": dict(tok=[["SPACE", r"\s+"], ["a", "a"], ["b", "b"], ["c", "c"]], syn={}, kw=[], skip=[],
                    T=["a", "b", "c"], lex={"a": "a", "b": "b", "c": "c"}, sep="", noise=""),
 }
@@ -851,7 +910,8 @@ def gen_shaped(rng, T, nts):
     for i, nt in enumerate(nts):
         later = nts[i + 1:]
         alts = []
-        shape = rng.choice(["prefix", "prefix", "nonadjacent", "chain", "fail-late", "mixed", "prefixperm", "prefixperm"])
+        shape = rng.choice(["prefix", "prefix", "nonadjacent", "chain", "fail-late", "mixed", "prefixperm", "prefixperm",
+                            "wide"])
 
         def sym(first):
             if first:
@@ -876,6 +936,21 @@ def gen_shaped(rng, T, nts):
             if rng.random() < 0.5:
                 alts.append(stem[:rng.randint(1, len(stem))] + [rng.choice(T), rng.choice(T)])
             rng.shuffle(alts)
+        if shape == "wide":
+            # 3-9 alternatives behind ONE leading symbol, all with different second symbols (the suffix symbol gets that
+            # many productions: the smart undo keeps a factorisation with more than 5 of them)
+            f = sym(True)
+            seconds = list(dict.fromkeys(T + nts + T))
+            rng.shuffle(seconds)
+            k = rng.randint(2, len(seconds))
+            for s2 in seconds[:k]:
+                alts.append([f, s2] + [sym(False) for _ in range(rng.choice([0, 0, 1]))])
+            if rng.random() < 0.6:
+                alts.append([f])
+            if rng.random() < 0.3:
+                alts.append([f, rng.choice(seconds[:k]), rng.choice(T), rng.choice(T)])
+            if rng.random() < 0.5:
+                rng.shuffle(alts)
         if shape in ("nonadjacent", "mixed"):
             f = sym(True)
             alts.append([f] + [sym(False) for _ in range(rng.randint(0, 2))])
@@ -1163,6 +1238,18 @@ def render(rng, var, w):
         inv.setdefault(name, []).append(ch)
     if "free" in var:
         inv["w"] = var["free"]
+    if "spanlex" in var:       # (text, value) pairs: the value of a span token is its body
+        pairs = [rng.choice(var["spanlex"][t]) if t in var["spanlex"] else [rng.choice(inv[t])] * 2 for t in w]
+        out = []
+        for tx, _ in pairs:
+            if rng.random() < 0.25:
+                out.append(rng.choice(var["spannoise"]))
+            out.append(tx)
+        if rng.random() < 0.2:
+            out.append(rng.choice(var["spannoise"]))
+        text = (" " if rng.random() < 0.8 else " \n").join(out)
+        render.expect[text] = [[t, v] for t, (_, v) in zip(w, pairs)]
+        return text
     parts = [rng.choice(inv[t]) for t in w]
     if "free" in var:          # free-text lexemes: remember the intended tokens, the text is not self-describing
         text = " ".join(parts) if rng.random() < 0.8 else " \n".join(parts)
@@ -1205,7 +1292,8 @@ def _finish_case(lines, spec, var_name, texts, meta, lexmap):
     m["variant"] = var_name
     case = {"lines": lines, "meta": m, "lexmap": dict(VARIANTS[var_name]["lex"] if lexmap is None else lexmap),
             "skipnames": skip_names(spec)}
-    exp = {t: render.expect[t] for t in texts if t in render.expect} if "free" in VARIANTS.get(var_name, {}) else {}
+    v_ = VARIANTS.get(var_name, {})
+    exp = {t: render.expect[t] for t in texts if t in render.expect} if ("free" in v_ or "spanlex" in v_) else {}
     if exp:
         case["expect"] = exp
     return case
@@ -1231,7 +1319,7 @@ def make_case(spec, var_name, words, texts, meta, diags=("prods", "suffix", "tab
     return _finish_case(lines, spec, var_name, list(texts) + list(line_texts) + [t for _, t in seqs], meta, lexmap)
 
 
-def make_multi_case(specs, var_name, texts_per_spec, meta):
+def make_multi_case(specs, var_name, texts_per_spec, meta, lexmap=None):
     """2-3 parser objects alive in one process: construct and use A, construct and use B (C), then go back to each of
     them (`use k`); every parser is judged on its own"""
     lines, all_texts = [], []
@@ -1247,7 +1335,7 @@ def make_multi_case(specs, var_name, texts_per_spec, meta):
         lines.append("amb")
     m = dict(meta)
     m["parsers"] = len(specs)
-    return _finish_case(lines, specs[0], var_name, all_texts, m, None)
+    return _finish_case(lines, specs[0], var_name, all_texts, m, lexmap)
 
 
 def gen_templates(rng, T, nts):
@@ -1276,14 +1364,17 @@ def gen_templates(rng, T, nts):
             tdefs.append([k, {"t": "seq", "args": members}])
         elif kind == "list":
             br = rng.random() < 0.5
-            delim = rng.choice(T)
+            # the delimiter is any symbol: a terminal or a (possibly nullable) non-terminal - then the tail of the list can
+            # reach itself without a token although the list stands behind its opening bracket
+            delim = rng.choice(T) if rng.random() < 0.7 else rng.choice(plain)
             tdefs.append([k, {"t": "list", "args": [rng.choice(T) if br else None, rng.choice(plain + T), delim,
                                                       rng.choice(T) if br else None,
                                                       rng.choice([None, 0, 1]) if br else None,
                                                       rng.choice([None, 0, 1]) if br else None]}])
         else:
-            tdefs.append([k, {"t": "map", "args": [rng.choice(T), rng.choice(plain + T), rng.choice(T), rng.choice(plain + T),
-                                                     rng.choice(T), rng.choice(T), rng.choice([None, 0, 1]),
+            anysym = lambda: rng.choice(T) if rng.random() < 0.7 else rng.choice(plain)
+            tdefs.append([k, {"t": "map", "args": [rng.choice(T), rng.choice(plain + T), anysym(), rng.choice(plain + T),
+                                                     anysym(), rng.choice(T), rng.choice([None, 0, 1]),
                                                      rng.choice([None, 0, 1])]}])
     top = [[rng.choice(tkeys)] + ([rng.choice(T)] if rng.random() < 0.7 else [])]
     for _ in range(rng.randint(0, 2)):
@@ -1318,7 +1409,7 @@ def gen_spec(rng, malformed_share=0.05, hidden_share=0.04, ll1_share=0.2, dfs_sh
              tmpl_share=0.05):
     """-> (spec, variant name, meta)"""
     var_name = rng.choice(["plain"] * 4 + ["syn", "kw", "synkw", "noskip", "swap", "spaceterm", "skipb", "comment",
-                           "skipiter", "free", "kwskip1", "kwskip2"])
+                           "skipiter", "free", "kwskip1", "kwskip2", "synid", "synchain", "synchainkw", "wsterm", "span"])
     var = VARIANTS[var_name]
     T = list(var["T"])
     pool = list(rng.choice(NT_POOLS))
@@ -1379,6 +1470,8 @@ def gen_spec(rng, malformed_share=0.05, hidden_share=0.04, ll1_share=0.2, dfs_sh
         emptykey = True
     spec = {"tok": [list(x) for x in var["tok"]], "syn": dict(var["syn"]), "kw": [list(x) for x in var["kw"]],
             "skip": None if var["skip"] is None else list(var["skip"]), "start": start, "prods": g}
+    if "span" in var:
+        spec["span"] = dict(var["span"])
     if spec["skip"] is not None:
         spec["kinds"] = {"skip": rng.choice(ARG_KINDS)}
     meta = {"gen": gen, "nts": len(nts), "start": "default" if start is None else "explicit"}
@@ -1409,7 +1502,7 @@ def gen_ll_cases(rng, n_grammars, maxlen, extra_long=0, rec_maxlen=2, malformed_
         meta["ref"] = "malformed" if not ok else ("left-recursive" if rec else "ok")
         ml = maxlen if (ok and not rec) else rec_maxlen
         words = list(all_strings(var["T"], ml))
-        names = set(var["lex"].values()) | ({"w"} if "free" in var else set())
+        names = set(var["lex"].values()) | ({"w"} if "free" in var else set()) | set(var.get("spanlex", ()))
         if ok and not rec:
             for w in sample_sentences(rng, user_grammar(spec), start_of(spec), sentences, sent_maxlen):
                 if w not in words and all(t in names for t in w):   # AnyTokenExcept also lists the skipped names
@@ -1430,8 +1523,24 @@ def gen_ll_cases(rng, n_grammars, maxlen, extra_long=0, rec_maxlen=2, malformed_
             few = texts[:13] + texts[40:][:25]
             yield make_multi_case(specs, var_name, [few] * len(specs), meta)
             continue
+        if meta.get("anytoken") and ok and not rec and rng.random() < 0.6:
+            # the same caller-owned AnyTokenExcept items in the grammars of two parsers whose tokenizers know different
+            # tokens (one more group `Zq`): each parser's item stands for ITS terminals
+            sib = dict(spec, tok=[list(x) for x in spec["tok"]] + [["Zq", "q"]])
+            few = texts[:13] + texts[40:][:25]
+            qtexts = []
+            if "free" not in var and "spanlex" not in var:
+                for t in few[:12]:
+                    cut = rng.randint(0, len(t))
+                    qtexts.append(t[:cut] + var["sep"] + "q" + var["sep"] + t[cut:])
+            pair = [(spec, few), (sib, few + qtexts)]
+            if rng.random() < 0.5:
+                pair.reverse()
+            yield make_multi_case([x for x, _ in pair], var_name, [y for _, y in pair], dict(meta, shareditems=1),
+                                  lexmap=dict(var["lex"], q="Zq"))
+            continue
         line_texts = []
-        if ok and not rec and (var_name == "free" or rng.random() < 0.15):
+        if ok and not rec and (var_name in ("free", "wsterm", "span") or rng.random() < 0.15):
             line_texts = [t for t in texts if rng.random() < 0.2][:30]
         seqs = []
         if ok and not rec:
@@ -1447,6 +1556,52 @@ def gen_ll_cases(rng, n_grammars, maxlen, extra_long=0, rec_maxlen=2, malformed_
             if seqs:
                 meta["seq"] = len(seqs)
         yield make_case(spec, var_name, words, texts, meta, diags=diags, seqs=seqs, line_texts=line_texts)
+
+
+def gen_layered_cases(rng, levels=(8, 16, 28, 40), per_level=1):
+    """layered, expression-like grammars: every level has 2-3 alternatives that reach the next level without a token
+    along different first symbols (nullable symbols in front / unit pairs), so the number of token-free PATHS from the
+    top to the bottom is exponential in the number of levels while the grammar stays small; the bottom is a token (no
+    cycle) or goes back to some level (cycle). Only inputs that are decided without backtracking are sent."""
+    var = VARIANTS["plain"]
+    for n in levels:
+        for _ in range(per_level):
+            shape = rng.choice(["nullable-front", "unit-pair", "mixed"])
+            width = rng.choice([2, 2, 3])
+            back = rng.choice([None, None, "top", "middle"])
+            L = ["L%d" % i for i in range(n + 1)]
+            g = []
+            for i in range(n):
+                sh = shape if shape != "mixed" else rng.choice(["nullable-front", "unit-pair"])
+                if sh == "nullable-front":
+                    g.append([L[i], [[nn, L[i + 1]] for nn in ["Na", "Nb", "Nc"][:width]]])
+                else:
+                    subs = ["M%d_%d" % (i, k) for k in range(width)]
+                    g.append([L[i], [[m] for m in subs]])
+                    for k, m in enumerate(subs):
+                        g.append([m, [[L[i + 1], ["b", "c", "a"][k]]]])
+            g.append([L[n], [["a"]] if back is None else [[L[0] if back == "top" else L[n // 2], "a"], ["a"]]])
+            g += [["Na", [["b"], []]], ["Nb", [["c"], []]], ["Nc", [["b", "c"], []]]]
+            if rng.random() < 0.5:
+                head, rest = g[:1], g[1:]
+                rng.shuffle(rest)
+                g = head + rest
+            spec = {"tok": [list(x) for x in var["tok"]], "syn": {}, "kw": [], "skip": None, "start": "L0", "prods": g}
+            # decided at once: the empty text, a text starting with a token outside FIRST(L0) ... and one sentence found
+            # by always taking the first alternative
+            sent = ["a"] + [x for i in reversed(range(n)) for x in (["b"] if g_first_is_unit(g, "L%d" % i) else [])]
+            words = [[]] + ([["b"]] if shape == "unit-pair" else [])
+            if back is None:
+                words.append(sent)
+            texts = [" ".join(w) for w in words]
+            meta = {"gen": "layered", "levels": n, "shape": shape, "width": width,
+                    "ref": "left-recursive" if back else "ok", "nts": len(g), "start": "explicit"}
+            yield make_case(spec, "plain", words, texts, meta, diags=())
+
+
+def g_first_is_unit(g, sym):
+    d = dict((k, v) for k, v in g)
+    return d[sym][0][0].startswith("M")
 
 
 LONG_SHAPES = [
